@@ -1,5 +1,53 @@
-(* C20 — property theorems (bootstrap stage; see DESIGN.md section 6). *)
-From Verif Require Import Inflate.
-Theorem C20_spec_inflater_runs : status (inflate [] [3;0]) = Done /\ out (inflate [] [3;0]) = [].
-Proof. vm_compute. split; reflexivity. Qed.
-Print Assumptions C20_spec_inflater_runs.
+(* C20 — property theorems.  PARTIAL by design: the byte bounds of C20 (n + n/32 + 256 for every
+   input; n/32 + 1200 for inputs of period <= 64 and n >= 64 KiB) need a bound on the redundancy of the
+   generated Huffman codes, which is not proved; they are measured on every run (also on reused
+   writers).  Proved on the faithful writer model: exact cost accounting, a bound on the dynamic
+   header, and that the periodic bound is FALSE at acceleration level 0 for a period whose 4-grams
+   collide in the 12-bit hash (known finding F-C20; the assembly match finders use a different hash).
+   Only statements, each closed by `exact`, followed by Print Assumptions. *)
+From Coq Require Import ZArith.
+From Verif Require Import C20Spec C20Proofs.
+Open Scope N_scope.
+
+(* the full statements of C20, kept visible: not proved *)
+Definition C20_expansion_statement : Prop :=
+  forall sync level win4k data w flags, bytes_ok data ->
+    hrun sync level win4k [HWrite data; HClose] = Some (w, flags) ->
+    lenN (run_bytes w) <= lenN data + lenN data / 32 + 256.
+Definition C20_periodic_statement : Prop :=
+  forall sync level win4k period k w flags, (level = 1 \/ level = 2 \/ level = (-1))%Z ->
+    bytes_ok period -> (0 < length period <= 64)%nat -> 65536 <= lenN (repeat_list k period) ->
+    hrun sync level win4k [HWrite (repeat_list k period); HClose] = Some (w, flags) ->
+    lenN (run_bytes w) <= lenN (repeat_list k period) / 32 + 1200.
+
+(* the output is exactly the bits of the blocks emitted: 8 * bytes = bits of the trace *)
+Theorem C20_cost_identity : cost_identity_statement.
+Proof. exact cost_identity. Qed.
+Print Assumptions C20_cost_identity.
+
+(* a block costs its header + the code words of its tokens + the end-of-block code *)
+Theorem C20_block_cost : block_cost_statement.
+Proof. exact block_cost. Qed.
+Print Assumptions C20_block_cost.
+
+(* a dynamic header never exceeds 4498 bits *)
+Theorem C20_header_bound : header_bound_statement.
+Proof. exact header_bound. Qed.
+Print Assumptions C20_header_bound.
+
+(* the periodic bound is refuted on the model of the pure-Go match finder: 65536 bytes of period
+   [112; 4; 89; 197] at level 1 become 18465 bytes > 65536/32 + 1200 = 3248 *)
+Theorem C20_periodic_refuted : periodic_refuted_statement.
+Proof. exact periodic_refuted. Qed.
+Print Assumptions C20_periodic_refuted.
+
+Corollary C20_periodic_statement_false : ~ C20_periodic_statement.
+Proof.
+  intros H. destruct periodic_refuted as (w & flags & Hrun & Hlen & Hbig).
+  specialize (H true 1%Z false colliding_period 16384%nat w flags (or_introl eq_refl)).
+  assert (Hb : bytes_ok colliding_period) by (repeat constructor).
+  assert (Hp : (0 < length colliding_period <= 64)%nat) by (cbn; split; repeat constructor).
+  assert (H64 : 65536 <= lenN (repeat_list 16384 colliding_period)) by (rewrite Hlen; apply N.le_refl).
+  specialize (H Hb Hp H64 Hrun). apply N.lt_nge in Hbig. exact (Hbig H).
+Qed.
+Print Assumptions C20_periodic_statement_false.
